@@ -40,14 +40,16 @@
  * element is in at most one tree at a time.
  */
 struct bte {
-    int key;
+    long long key;      /* what the comparison functions read: the key, negated when `neg` */
+    int neg;
     struct cstl_bintree_node n;
     long pad;
     struct cstl_bintree_node n2;
 };
 
 struct rbe {
-    int key;
+    long long key;
+    int neg;
     struct cstl_rbtree_node n;
     long pad;
     struct cstl_rbtree_node n2;
@@ -60,6 +62,17 @@ static struct cstl_bintree bt_obj[2];
 static struct cstl_rbtree rb_obj[2];
 static struct cstl_bintree * BTP = &bt_obj[0], * BTP2 = &bt_obj[1];
 static struct cstl_rbtree * RBP = &rb_obj[0], * RBP2 = &rb_obj[1];
+/* The swap partners are initialised with comparison functions that order by the NEGATED stored
+ * key; a swap exchanges the comparison functions with the contents.  The harness tracks which
+ * function each object must have by now and stores keys negated where the object addressed is
+ * supposed to compare negations, so that under a correct library every tree is ordered by the
+ * keys the script names (cf. harness/heap.c). */
+static int bt_neg[2], rb_neg[2];
+#define BT_ADDR_NEG (bt_neg[BTP == &bt_obj[0] ? 0 : 1])
+#define RB_ADDR_NEG (rb_neg[RBP == &rb_obj[0] ? 0 : 1])
+#define SETKEY(el, v, negflag) do { (el).neg = (negflag); \
+        (el).key = (el).neg ? -(long long)(int)(v) : (long long)(int)(v); } while (0)
+#define PRIO(e) ((e)->neg ? -(e)->key : (e)->key)
 #define bt (*BTP)
 #define bt2 (*BTP2)
 #define rb (*RBP)
@@ -270,9 +283,9 @@ static void shape(int kind, const struct cstl_bintree_node * bn)
         return;
     }
     if (kind == K_BT) {
-        outf("(%ld:%d ", bt_id(bn), ((const struct bte *)elem_of(kind, bn))->key);
+        outf("(%ld:%d ", bt_id(bn), (int)PRIO((const struct bte *)elem_of(kind, bn)));
     } else if (kind == K_RB) {
-        outf("(%ld:%d%s ", rb_id(bn), ((const struct rbe *)elem_of(kind, bn))->key, is_red(bn) ? "R" : "B");
+        outf("(%ld:%d%s ", rb_id(bn), (int)PRIO((const struct rbe *)elem_of(kind, bn)), is_red(bn) ? "R" : "B");
     } else {
         int i = map_lookup(bn);
         if (i >= 0) {
@@ -300,9 +313,9 @@ static uint64_t digest(int kind, const struct cstl_bintree_node * bn, uint64_t h
     h = mix(h, 7);
     h = mix(h, (uint64_t)id_of(kind, bn));
     if (kind == K_BT) {
-        h = mix(h, (uint64_t)(int64_t)((const struct bte *)elem_of(kind, bn))->key);
+        h = mix(h, (uint64_t)(int64_t)(int)PRIO((const struct bte *)elem_of(kind, bn)));
     } else if (kind == K_RB) {
-        h = mix(h, (uint64_t)(int64_t)((const struct rbe *)elem_of(kind, bn))->key);
+        h = mix(h, (uint64_t)(int64_t)(int)PRIO((const struct rbe *)elem_of(kind, bn)));
         h = mix(h, is_red(bn) ? 1 : 2);
     } else {
         int i = map_lookup(bn);
@@ -358,10 +371,22 @@ static int cmp_bt(const void * a, const void * b, void * p)
     return h_cmp_result(((const struct bte *)a)->key, ((const struct bte *)b)->key);
 }
 
+static int cmp_bt_rev(const void * a, const void * b, void * p)
+{
+    h_priv_check(p, 1);
+    return h_cmp_result(-((const struct bte *)a)->key, -((const struct bte *)b)->key);
+}
+
 static int cmp_rb(const void * a, const void * b, void * p)
 {
     h_priv_check(p, 2);
     return h_cmp_result(((const struct rbe *)a)->key, ((const struct rbe *)b)->key);
+}
+
+static int cmp_rb_rev(const void * a, const void * b, void * p)
+{
+    h_priv_check(p, 2);
+    return h_cmp_result(-((const struct rbe *)a)->key, -((const struct rbe *)b)->key);
 }
 
 /*
@@ -602,8 +627,10 @@ static void reset(void)
     H_POISON_OBJ(rb);
     H_POISON_OBJ(bt2);
     H_POISON_OBJ(rb2);
-    cstl_bintree_init(&bt2, cmp_bt, H_PRIV(1), offsetof(struct bte, n2));
-    cstl_rbtree_init(&rb2, cmp_rb, H_PRIV(2), offsetof(struct rbe, n2));
+    cstl_bintree_init(&bt2, cmp_bt_rev, H_PRIV(1), offsetof(struct bte, n2));
+    cstl_rbtree_init(&rb2, cmp_rb_rev, H_PRIV(2), offsetof(struct rbe, n2));
+    bt_neg[0] = rb_neg[0] = 0;
+    bt_neg[1] = rb_neg[1] = 1;
     H_POISON_OBJ(map);
     cstl_bintree_init(&bt, cmp_bt, H_PRIV(1), offsetof(struct bte, n));
     cstl_rbtree_init(&rb, cmp_rb, H_PRIV(2), offsetof(struct rbe, n));
@@ -739,13 +766,13 @@ static void op(int argc, char ** argv)
             return;
         }
         if (kind == K_BT) {
-            btpool[id].key = (int)h_int(argv[3]);
+            SETKEY(btpool[id], h_int(argv[3]), BT_ADDR_NEG);
             if (hinted) {
                 cstl_bintree_find(&bt, &btpool[id], &par);
             }
             cstl_bintree_insert(&bt, &btpool[id], (void *)par);
         } else {
-            rbpool[id].key = (int)h_int(argv[3]);
+            SETKEY(rbpool[id], h_int(argv[3]), RB_ADDR_NEG);
             if (hinted) {
                 cstl_rbtree_find(&rb, &rbpool[id], &par);
             }
@@ -764,10 +791,10 @@ static void op(int argc, char ** argv)
             return;
         }
         if (kind == K_BT) {
-            btpool[id].key = (int)h_int(argv[3]);
+            SETKEY(btpool[id], h_int(argv[3]), BT_ADDR_NEG);
             cstl_bintree_insert(&bt, &btpool[id], &btpool[h]);
         } else {
-            rbpool[id].key = (int)h_int(argv[3]);
+            SETKEY(rbpool[id], h_int(argv[3]), RB_ADDR_NEG);
             cstl_rbtree_insert(&rb, &rbpool[id], &rbpool[h]);
         }
         in[id] = 1;
@@ -789,10 +816,10 @@ static void op(int argc, char ** argv)
             return;
         }
         if (kind == K_BT) {
-            btpool[id].key = (int)h_int(argv[2]);
+            SETKEY(btpool[id], h_int(argv[2]), BT_ADDR_NEG);
             cstl_bintree_insert(&bt, &btpool[id], &btpool[h]);
         } else {
-            rbpool[id].key = (int)h_int(argv[2]);
+            SETKEY(rbpool[id], h_int(argv[2]), RB_ADDR_NEG);
             cstl_rbtree_insert(&rb, &rbpool[id], &rbpool[h]);
         }
         in[id] = 1;
@@ -800,10 +827,10 @@ static void op(int argc, char ** argv)
     } else if (!strcmp(o, "find") && argc == 3) {
         const void * par = NULL, * f;
         if (kind == K_BT) {
-            btpool[0].key = (int)h_int(argv[2]);
+            SETKEY(btpool[0], h_int(argv[2]), BT_ADDR_NEG);
             f = cstl_bintree_find(&bt, &btpool[0], &par);
         } else {
-            rbpool[0].key = (int)h_int(argv[2]);
+            SETKEY(rbpool[0], h_int(argv[2]), RB_ADDR_NEG);
             f = cstl_rbtree_find(&rb, &rbpool[0], &par);
         }
         outf("%ld p=%ld", elem_id(kind, f), elem_id(kind, par));
@@ -811,10 +838,10 @@ static void op(int argc, char ** argv)
         void * f;
         long id;
         if (kind == K_BT) {
-            btpool[0].key = (int)h_int(argv[2]);
+            SETKEY(btpool[0], h_int(argv[2]), BT_ADDR_NEG);
             f = cstl_bintree_erase(&bt, &btpool[0]);
         } else {
-            rbpool[0].key = (int)h_int(argv[2]);
+            SETKEY(rbpool[0], h_int(argv[2]), RB_ADDR_NEG);
             f = cstl_rbtree_erase(&rb, &rbpool[0]);
         }
         id = elem_id(kind, f);
@@ -877,9 +904,15 @@ static void op(int argc, char ** argv)
     } else if (!strcmp(o, "swap") && argc == 2) {
         /* exchange the tree with its (initially empty) partner */
         if (kind == K_BT) {
+            const int t = bt_neg[0];
             cstl_bintree_swap(&bt, &bt2);
+            bt_neg[0] = bt_neg[1];      /* the comparison functions trade places with the contents */
+            bt_neg[1] = t;
         } else {
+            const int t = rb_neg[0];
             cstl_rbtree_swap(&rb, &rb2);
+            rb_neg[0] = rb_neg[1];
+            rb_neg[1] = t;
         }
         outf("ok");
     } else if (!strcmp(o, "alt") && argc == 2) {
